@@ -29,8 +29,10 @@
 //!
 //! Observation:  ok acc=<bits> dfs=<full_size - |unsigned tx|> dss=<|really signed tx| - |unsigned tx|>
 //!               sig=<key ids signed with> bw=<Byron addresses witnessed> ns= ps= dat= red= refs= ins= col= rs=
+//! Byron address ids: 0..3 Icarus style (even mainnet, odd testnet magic), 4..9 Daedalus style with a derivation-path attribute of
+//! 1 / 8 / 34 payload bytes (7..9 also carry the protocol magic); Daedalus-style addresses are witnessed with make_daedalus_bootstrap_witness.
 //! (lists sorted, `-` when empty).  The transaction is signed with one real Ed25519 key per required key hash and
-//! one Icarus bootstrap witness per Byron address; every signature is verified after a wire round trip.
+//! one bootstrap witness per Byron address (Icarus or Daedalus style); every signature is verified after a wire round trip.
 #![allow(deprecated)]
 use cardano_serialization_lib::*;
 use csl_verif_harness::util::*;
@@ -226,11 +228,57 @@ const NKEYS: u64 = 600;
 thread_local! { static KEY_HASHES: Vec<Ed25519KeyHash> = (0..NKEYS).map(|k| sk(k).to_public().hash()).collect(); }
 fn kh(k: u64) -> Ed25519KeyHash { if k < NKEYS { KEY_HASHES.with(|t| t[k as usize].clone()) } else { sk(k).to_public().hash() } }
 fn khs(ks: &[u64]) -> Ed25519KeyHashes { let mut s = Ed25519KeyHashes::new(); for k in ks { s.add(&kh(*k)); } s }
-thread_local! { static BYRON_KEYS: Vec<Vec<u8>> = (0..8u64).map(|a| Bip32PrivateKey::from_bip39_entropy(&Rng::new(0xB1_0000 ^ a).bytes(32), &[]).as_bytes()).collect(); }
-fn byron_key(a: u64) -> Bip32PrivateKey { BYRON_KEYS.with(|t| Bip32PrivateKey::from_bytes(&t[(a % 8) as usize]).unwrap()) }
+thread_local! { static BYRON_KEYS: Vec<Vec<u8>> = (0..10u64).map(|a| Bip32PrivateKey::from_bip39_entropy(&Rng::new(0xB1_0000 ^ a).bytes(32), &[]).as_bytes()).collect(); }
+fn byron_key(a: u64) -> Bip32PrivateKey { BYRON_KEYS.with(|t| Bip32PrivateKey::from_bytes(&t[(a % 10) as usize]).unwrap()) }
+fn crc32(data: &[u8]) -> u32 {
+    let mut crc = 0xffff_ffffu32;
+    for b in data { crc ^= *b as u32; for _ in 0..8 { crc = if crc & 1 != 0 { (crc >> 1) ^ 0xedb8_8320 } else { crc >> 1 }; } }
+    !crc
+}
+fn cbor_head(major: u8, n: u64, out: &mut Vec<u8>) {
+    let m = major << 5;
+    if n < 24 { out.push(m | n as u8) } else if n < 256 { out.push(m | 24); out.push(n as u8) }
+    else if n < 65536 { out.push(m | 25); out.extend_from_slice(&(n as u16).to_be_bytes()) }
+    else { out.push(m | 26); out.extend_from_slice(&(n as u32).to_be_bytes()) }
+}
+/// A Daedalus-style Byron address (same construction as harness/src/bin/c13.rs): the attributes carry a derivation-path payload of
+/// `dp_len` bytes (and the protocol magic when given).  The library has no public constructor for this style, so the address is
+/// assembled on the wire ([#6.24(bytes [root, attributes, 0]), crc32]); the root is arbitrary (sizes depend on the attributes alone).
+fn daedalus_style_address(root_seed: u64, dp_len: usize, magic: Option<u32>) -> ByronAddress {
+    let mut root = [0u8; 28];
+    for (i, b) in root.iter_mut().enumerate() { *b = (root_seed.wrapping_mul(0x9E37_79B9_7F4A_7C15).rotate_left((i as u32 * 5) % 64) >> 7) as u8 ^ i as u8; }
+    let mut dp = Vec::new();
+    cbor_head(2, dp_len as u64, &mut dp);
+    for i in 0..dp_len { dp.push((root_seed as u8).wrapping_add((i as u8).wrapping_mul(7))); }
+    let mut payload = Vec::new();
+    cbor_head(4, 3, &mut payload);
+    cbor_head(2, 28, &mut payload); payload.extend_from_slice(&root);
+    cbor_head(5, if magic.is_some() { 2 } else { 1 }, &mut payload);
+    cbor_head(0, 1, &mut payload); cbor_head(2, dp.len() as u64, &mut payload); payload.extend_from_slice(&dp);
+    if let Some(m) = magic { let mut mb = Vec::new(); cbor_head(0, m as u64, &mut mb); cbor_head(0, 2, &mut payload); cbor_head(2, mb.len() as u64, &mut payload); payload.extend_from_slice(&mb); }
+    cbor_head(0, 0, &mut payload);
+    let mut addr = Vec::new();
+    cbor_head(4, 2, &mut addr); cbor_head(6, 24, &mut addr); cbor_head(2, payload.len() as u64, &mut addr); addr.extend_from_slice(&payload);
+    cbor_head(0, crc32(&payload) as u64, &mut addr);
+    ByronAddress::from_bytes(addr).expect("hand-built Byron address")
+}
+/// Byron address ids: 0..3 Icarus style (even: mainnet, no attribute; odd: testnet protocol magic), 4..9 Daedalus style with a
+/// derivation-path payload of 1 / 8 / 34 bytes (4..6 without, 7..9 with the protocol magic)
+fn is_daedalus(a: u64) -> bool { a % 10 >= 4 }
 fn byron(a: u64) -> ByronAddress {
-    let magic = if a % 2 == 0 { 764824073 } else { 1097911063 };
-    ByronAddress::icarus_from_key(&byron_key(a).to_public(), magic)
+    let a = a % 10;
+    if a < 4 {
+        let magic = if a % 2 == 0 { 764824073 } else { 1097911063 };
+        ByronAddress::icarus_from_key(&byron_key(a).to_public(), magic)
+    } else {
+        daedalus_style_address(a, [1usize, 8, 34][((a - 4) % 3) as usize], if a >= 7 { Some(1097911063) } else { None })
+    }
+}
+fn bootstrap_witness(hash: &TransactionHash, a: u64) -> BootstrapWitness {
+    if is_daedalus(a) {
+        let k = LegacyDaedalusPrivateKey::from_bytes(&byron_key(a).as_bytes()).expect("daedalus key");
+        make_daedalus_bootstrap_witness(hash, &byron(a), &k)
+    } else { make_icarus_bootstrap_witness(hash, &byron(a), &byron_key(a)) }
 }
 fn oref(o: u64) -> TransactionInput {
     let mut h = vec![0u8; 32];
@@ -592,7 +640,7 @@ fn run_case(c: &Case) -> String {
     for k in &keys { vk.add(&make_vkey_witness(&tx_hash, &sk(*k))); }
     if !keys.is_empty() { ws.set_vkeys(&vk); }
     let mut bw = BootstrapWitnesses::new();
-    for a in &boots { bw.add(&make_icarus_bootstrap_witness(&tx_hash, &byron(*a), &byron_key(*a))); }
+    for a in &boots { bw.add(&bootstrap_witness(&tx_hash, *a)); }
     if !boots.is_empty() { ws.set_bootstraps(&bw); }
     let signed = Transaction::new(&body, &ws, tx.auxiliary_data());
     let signed_bytes = signed.to_bytes();
@@ -652,6 +700,7 @@ fn run_case(c: &Case) -> String {
     vred.sort();
     let vred_s = if vred.is_empty() { "-".to_string() } else { vred.iter().map(|(t, p)| format!("{}:{}", t, p)).collect::<Vec<_>>().join(",") };
     // the hash-rank table of the case must be the true one
+    for (a, n) in &c.attrs { if byron(*a).attributes().len() as u64 != *n { return format!("err:stale-attribute-table {} {}", a, byron(*a).attributes().len()); } }
     let true_hr = hash_ranks(&w, c);
     if !c.hr.is_empty() && c.hr != true_hr { return format!("err:stale-hash-rank-table {:?}", true_hr); }
 
@@ -729,7 +778,7 @@ impl G {
             let o = if readd == 0 { loop { let o = self.r.below(self.norefs); if !owners.contains_key(&o) { break o; } } } else { self.r.below(self.norefs.min(6)) };
             let op = match kind {
                 0 => InOp::Key(o, self.key(), self.r.chance(1, 3)),
-                1 => InOp::Byron(o, self.r.below(4), self.r.chance(1, 3)),
+                1 => InOp::Byron(o, self.r.below(10), self.r.chance(1, 3)),
                 2 => InOp::Native(o, self.nsrc(mixed)),
                 _ => InOp::Plutus(o, self.pwit(mixed, true)),
             };
@@ -898,7 +947,7 @@ fn generate(out: &mut Out) {
         }
         for _ in 0..40 { let k = g.key(); c.signers.push(k); }
         c.certs.push(CertOp { kind: 3, cred: Cred::K(0), keys: ks.iter().cloned().take(30).collect(), aux: 0, wit: Wit::None });  // increasing
-        let n = g.r.below(4); c.inputs.extend((0..n).map(|j| InOp::Byron(1000 + j, j % 4, false)));
+        let n = g.r.below(4); c.inputs.extend((0..n).map(|j| InOp::Byron(1000 + j, (j * 3 + *target) % 10, false)));
         emit(finish(c));
     }
     // Byron addresses: one witness per address whatever the number of inputs; Byron collateral
@@ -906,10 +955,10 @@ fn generate(out: &mut Out) {
         let mut g = new_gen(&mut r, 3);
         let mut c = Case::default(); c.label = "byron".into();
         let n = 1 + g.r.below(6);
-        for j in 0..n { let a = g.r.below(4); let reg = g.r.chance(1, 2); c.inputs.push(InOp::Byron(j, a, reg)); }
+        for j in 0..n { let a = g.r.below(10); let reg = g.r.chance(1, 2); c.inputs.push(InOp::Byron(j, a, reg)); }
         if g.r.chance(1, 2) { c.inputs.push(InOp::Key(20, g.key(), false)); }
         let m = g.r.below(3);
-        for j in 0..m { let a = g.r.below(4); c.collateral.push(InOp::Byron(if g.r.chance(1, 2) { j } else { 30 + j }, a, false)); }
+        for j in 0..m { let a = g.r.below(10); c.collateral.push(InOp::Byron(if g.r.chance(1, 2) { j } else { 30 + j }, a, false)); }
         emit(finish(c));
     }
     // votes and mint with every kind of source and declared signers
